@@ -92,6 +92,27 @@ Definition offsets_after (t : text) (es : list edit) : list N :=
          end
   end.
 
+(* ------------------------------------------------------------------ the shared loop shape *)
+(* All four rewriting loops are "leftmost, non-overlapping matches from left to right":
+     for (offset, ch) in char_indices { if offset < min_offset { continue } ... }      (replace_slow)
+     for m in checker.find_iter(..) / re.find_iter(..) / regex.captures_iter(..)       (the other three)
+   `act t` looks at the text from the current position on and answers Some (off, n, v): the match covers the next n code
+   points, of which [off, n) are replaced by v; the scan resumes behind the match (`skip` = code points still to pass). *)
+Definition action := option (nat * nat * text).
+
+Fixpoint scan_edits (act : text -> action) (pos skip : nat) (t : text) : list edit :=
+  match t with
+  | [] => []
+  | _ :: t' =>
+      match skip with
+      | S k => scan_edits act (S pos) k t'
+      | O => match act t with
+             | Some (off, n, v) => mkE (pos + off) (pos + n) v :: scan_edits act (S pos) (n - 1) t'
+             | None => scan_edits act (S pos) 0 t'
+             end
+      end
+  end.
+
 (* ------------------------------------------------------------------ rewrite table *)
 
 Definition table := list (text * text).
@@ -211,38 +232,25 @@ Section Default.
   Definition slow_match (t : text) : option (nat * text) :=
     if Generated.NormalizeFacts.slow_search_earliest then shortest_match tb t else longest_match tb t.
 
-  (* replace_slow: `for (offset, ch) in cur.char_indices() { if offset < min_offset { continue } ... }` *)
-  Fixpoint slow_scan (pos skip : nat) (t : text) : list edit :=
-    match t with
-    | [] => []
-    | c :: t' =>
-        match skip with
-        | S k => slow_scan (S pos) k t'
-        | O => match slow_match t with
-               | Some (n, v) => mkE pos (pos + n) v :: slow_scan (S pos) (n - 1) t'
-               | None => match norm_edit c with
-                         | Some r => mkE pos (S pos) r :: slow_scan (S pos) 0 t'
-                         | None => slow_scan (S pos) 0 t'
-                         end
-               end
-        end
+  (* replace_slow: `for (offset, ch) in cur.char_indices() { if offset < min_offset { continue } ... }`:
+     1. replacement by the table, 2. otherwise normalisation of the single character *)
+  Definition slow_act (t : text) : action :=
+    match slow_match t with
+    | Some (n, v) => Some (0, n, v)
+    | None => match t with
+              | c :: _ => match norm_edit c with Some r => Some (0, 1, r) | None => None end
+              | [] => None
+              end
     end.
-  Definition slow_edits (t : text) : list edit := slow_scan 0 0 t.
+  Definition slow_edits (t : text) : list edit := scan_edits slow_act 0 0 t.
 
-  (* replace_fast: unanchored leftmost-longest find_iter (non-overlapping) *)
-  Fixpoint fast_scan (pos skip : nat) (t : text) : list edit :=
-    match t with
-    | [] => []
-    | c :: t' =>
-        match skip with
-        | S k => fast_scan (S pos) k t'
-        | O => match longest_match tb t with
-               | Some (n, v) => mkE pos (pos + n) v :: fast_scan (S pos) (n - 1) t'
-               | None => fast_scan (S pos) 0 t'
-               end
-        end
+  (* replace_fast: unanchored leftmost-longest find_iter (non-overlapping); characters are not looked at *)
+  Definition fast_act (t : text) : action :=
+    match longest_match tb t with
+    | Some (n, v) => Some (0, n, v)
+    | None => None
     end.
-  Definition fast_edits (t : text) : list edit := fast_scan 0 0 t.
+  Definition fast_edits (t : text) : list edit := scan_edits fast_act 0 0 t.
 
   (* rewrite_impl: qc_text = (is_nfkc_quick(all chars) == Yes) comes from the oracle with the text *)
   Definition need_lower_text (c : cp) : bool :=
@@ -268,18 +276,9 @@ Section Psm.
     end.
 
   (* regex [marks]{2,} with find_iter: leftmost, greedy, non-overlapping *)
-  Fixpoint psm_scan (pos skip : nat) (t : text) : list edit :=
-    match t with
-    | [] => []
-    | c :: t' =>
-        match skip with
-        | S k => psm_scan (S pos) k t'
-        | O => let n := run_len t in
-               if 2 <=? n then mkE pos (pos + n) sym :: psm_scan (S pos) (n - 1) t'
-               else psm_scan (S pos) 0 t'
-        end
-    end.
-  Definition psm_edits (t : text) : list edit := psm_scan 0 0 t.
+  Definition psm_act (t : text) : action :=
+    let n := run_len t in if 2 <=? n then Some (0, n, sym) else None.
+  Definition psm_edits (t : text) : list edit := scan_edits psm_act 0 0 t.
 
   (* specification: every maximal run of at least two mark characters becomes the symbol; all else is kept.
      in_run: number of mark characters of the current run already seen *)
@@ -329,19 +328,12 @@ Section Yomi.
     end.
 
   (* captures_iter, group 1 replaced by "": the kanji stays, bracket..bracket goes *)
-  Fixpoint yomi_scan (pos skip : nat) (t : text) : list edit :=
-    match t with
-    | [] => []
-    | c :: t' =>
-        match skip with
-        | S k => yomi_scan (S pos) k t'
-        | O => match yomi_at t with
-               | Some k => mkE (S pos) (pos + k + 3) [] :: yomi_scan (S pos) (k + 2) t'
-               | None => yomi_scan (S pos) 0 t'
-               end
-        end
+  Definition yomi_act (t : text) : action :=
+    match yomi_at t with
+    | Some k => Some (1, k + 3, [])
+    | None => None
     end.
-  Definition yomi_edits (t : text) : list edit := yomi_scan 0 0 t.
+  Definition yomi_edits (t : text) : list edit := scan_edits yomi_act 0 0 t.
 End Yomi.
 
 (* ------------------------------------------------------------------ correspondence-check entry points *)
